@@ -39,6 +39,16 @@ def derivX (I : K) (L : Nat → Nat → K) (R : Nat → K) (t : Nat → Nat → 
   X i j * derFac I L R (t i) (t j) axes
 end
 
+/-- `System_R.reorder` on the whole dictionary of real-space matrices: `for key, val in self._XX_R.items(): …` —
+    EVERY stored matrix is permuted, whatever its name -/
+def reorderSys {K : Type} (p : Nat → Nat) (mats : List (String × (Nat → Nat → K))) : List (String × (Nat → Nat → K)) :=
+  mats.map fun kv => (kv.1, reorderM p kv.2)
+
+/-- a variant that only treats a fixed list of names (matrices outside the list keep the OLD order) -/
+def reorderSysKeys {K : Type} (keys : List String) (p : Nat → Nat) (mats : List (String × (Nat → Nat → K))) :
+    List (String × (Nat → Nat → K)) :=
+  mats.map fun kv => if keys.contains kv.1 then (kv.1, reorderM p kv.2) else kv
+
 /-! ### driver -/
 open WB.IO WB.C04
 
